@@ -179,8 +179,38 @@ def run(tier, rep, ev):
                 what = "the image opens with a member list that is neither the old nor the new one (or with other bytes)"
                 rep.violation(f"crash-accepted-wrong:{label[0]}:{desc.split('#')[0]}", f"{desc} crash point {label}: {what}: got {val[:4]}",
                               {"session": desc, "crash_point": label, "image": img, "got": val, "old": old, "new": new})
+        # ---- the session that comes after the crash: mode 'a' on what was left, one more member.  It may refuse the image; if it goes
+        # ahead, the result holds the old or the new member list plus its own member - never less (a create session had nothing before)
+        import hashlib
+        mk = (crash.MARKER[0], hashlib.sha1(crash.MARKER[1]).hexdigest())
+        sel = [k for k in range(len(cases)) if old is not None or k % 4 == 0]
+        outs2 = sandbox.run_cases(crash.probe_append, [cases[k] for k in sel], timeout=20, nproc=16, slice_size=64)
+        nrej2 = nkept = 0
+        for k, o in zip(sel, outs2):
+            total += 1
+            label, img = labels[k], cases[k][0]
+            ev.case((desc, label, "then-append"))
+            if o.status != "ok":
+                rep.violation(f"append-after-crash-{o.status}", f"{desc} {label}: {o.value} {o.detail[-300:]}", {"session": desc, "crash_point": label, "image": img})
+                continue
+            verdict, val = o.value
+            if verdict.startswith("reject"):
+                nrej2 += 1
+                continue
+            val = [tuple(x) for x in val]
+            allowed = [[tuple(x) for x in new] + [mk]]
+            if old is not None:
+                allowed.append([tuple(x) for x in old] + [mk])
+            else:
+                allowed.append([mk])
+            if val in allowed:
+                nkept += 1
+            else:
+                rep.violation(f"append-after-crash-loses-members:{label[0]}:{desc.split('#')[0]}",
+                              f"{desc} crash point {label}: an append session on the image left {val[:4]}, neither the old nor the new members plus its own",
+                              {"session": desc, "crash_point": label, "image": img, "got": val, "old": old, "new": new})
         ev.sample({"session": desc, "operations": [(o, len(d)) for o, d in ops][:14], "crash_points": len(cases),
-                   "outcomes": {"reject": nrej, "old": nold, "new": nnew}}, cap=6)
+                   "outcomes": {"reject": nrej, "old": nold, "new": nnew}, "then_append": {"refused": nrej2, "kept": nkept}}, cap=6)
     ev.traces(0)
     ev.cov["traces_validated_against_impl"] = total
     ev.cov["exhaustive"] = True
